@@ -122,6 +122,20 @@ class IOState:
         return True
 
 
+def _sticky(io):
+    """A fired fault marked `sticky` models a condition that persists for the rest of the API call
+    (the disk stays full, the device stays gone): every LATER write-type operation of the same
+    scope fails too - stragglers in flight, writes of a handler, a retry. Deletes still work (that
+    is how a full disk is recovered from; failing the clean-up itself is outside C08)."""
+    a = io.armed
+    if not io.in_scope or not a or not a.get("fired") or not a.get("sticky"):
+        return None
+    bump(io.faults_fired, "sticky_refire")
+    io.log.add("STICKY", "write refused")
+    return _injected(a.get("errno", "ENOSPC") if a.get("errno") in ("ENOSPC", "EIO", "EACCES",
+                                                                   "PermissionError") else "ENOSPC")
+
+
 def _io() -> IOState | None:
     s = Sim.current
     return getattr(s, "io", None) if s is not None else None
@@ -149,6 +163,10 @@ class SimStore(_LocalStore):
             # the error surfaces when the blocking call runs, i.e. at a simulated completion
             # instant, while sibling operations are still in flight
             await asyncio.to_thread(_raiser, _injected(io.armed.get("errno", "ENOSPC")))
+        elif kind in ("set", "set_if_not_exists"):
+            exc = _sticky(io)
+            if exc is not None:
+                await asyncio.to_thread(_raiser, exc)
         r = await thunk()
         io.log.add("c", kind, key)
         if io.should_fire("store", k, "after"):
@@ -362,6 +380,9 @@ class SimZipFile(_zipfile.ZipFile):
                         data = f.read()
                     self.writestr(str(arcname), data[: len(data) // 2])
                 raise _injected(io.fired_in_scope.get("errno", "ENOSPC"))
+            exc = _sticky(io)
+            if exc is not None:
+                raise exc
         return super().write(filename, arcname, *a, **k)
 
     def close(self):
@@ -377,6 +398,15 @@ class SimZipFile(_zipfile.ZipFile):
                 except Exception:
                     pass
                 raise _injected("ENOSPC")
+            exc = _sticky(io)
+            if exc is not None:
+                fp = self.fp
+                self.fp = None
+                try:
+                    fp.close()
+                except Exception:
+                    pass
+                raise exc
         return super().close()
 
 
